@@ -228,6 +228,9 @@ impl Oracles {
                 | ("C11", _)
                 | ("C12", "first-htlc-rejection-late")
                 | ("C12", "first-htlc-not-rejected-with-policy")
+                | ("C12", "funded-set-not-paid")
+                | ("C12", "rejected-although-sufficient")
+                | ("C05", "paid-invoice-htlc-failed")
                 | ("C13", "not-answered-immediately")
                 | ("C13", "rpc-caused-by-non-trampoline")
                 | ("C13", "state-retained")
